@@ -42,10 +42,12 @@ Definition op_parse (v : val) : val :=
 Definition cut (mode : nat) (s : text) : list text :=
   match mode with 0 => lines_file s | 1 => lines_str s | _ => lines_url s end.
 
-(* c01.parse_text : (autocorrect header_only mode data_type text) -> result instance
-   mode 0 = readlines (parse_file), 1 = splitlines (parse_str), 2 = stripped splitlines (parse_url) *)
+(* c01.parse_text : (autocorrect header_only mode data_type text [file_name]) -> result instance
+   mode 0 = readlines (parse_file), 1 = splitlines (parse_str), 2 = stripped splitlines (parse_url);
+   file_name = the value the entry point stores before parsing (basename of the path; default empty) *)
 Definition op_parse_text (v : val) : val :=
-  eresult e_inst (ord_parse (dbool (dnth 0 v)) (dbool (dnth 1 v)) (meta0 (d_text (dnth 3 v)))
+  eresult e_inst (ord_parse (dbool (dnth 0 v)) (dbool (dnth 1 v))
+                            (set_file_name (meta0 (d_text (dnth 3 v))) (d_text (dnth 5 v)))
                             (cut (dnat (dnth 2 v)) (d_text (dnth 4 v)))).
 
 (* c01.tokenize : text -> (token ...) *)
